@@ -285,6 +285,11 @@ fn main() {
 of one flavour: clean, or exactly one kind of input outside a class (whitespace-only literal, blank node label starting with a digit, reserved rdf: name as predicate, predicate without NCName suffix, non-XML character, CR, non-BCP47 tag, generalised triple, quoted triple), serialised with every indentation 0..8; \
 (B, 1 of 6) a raw element text and a raw attribute value (references, stray ampersands, CR/LF/TAB, non-XML characters) fed to the real parser and to the reference reader; \
 non-trivial = A: at least one representable triple and (a literal with a character that needs escaping or whitespace at an end, or a predicate not ending in a plain ASCII name after '/' or '#'), B: the raw string contains '&' or whitespace; distinct = distinct inputs".into();
+    // Which serializer is under test?  The proposed repair (build/proposed/C18.diff) refuses text outside XML's Char
+    // production; the Coq model has both variants (guard = true / false) and the cases are checked against the one present.
+    let guard = matches!(serialize(&vec![[iri("http://e/s"), iri("http://e/p"), lit_dt("\u{1}", &format!("{XSD}string"))]], 0), Ser::Err(_));
+    sum.extra.push(("serializer_has_repair".into(), guard.to_string()));
+    let cg = coq_bool(guard);
     let base = Rng::new(a.seed);
     let mut cases = vec![]; let mut seen = std::collections::HashSet::new();
     let range: Vec<usize> = match a.only { Some(i) => vec![i], None => (0..a.n).collect() };
@@ -403,17 +408,18 @@ non-trivial = A: at least one representable triple and (a literal with a charact
         // the outcome and both parses for both
         let k1 = r.range(1, 8);
         let rio_modelled = flavour != Flavour::BadLang; // oxilangtag's validation is not modelled
-        let lower_tag = |t: &T3| -> T3 { let mut t = t.clone(); if let SimpleTerm::LiteralLanguage(l, tag) = &t[2] { t[2] = lit_lang(l, &tag.as_str().to_ascii_lowercase()); } t };
+        let node_out = |x: &ST| -> ST { match x { SimpleTerm::BlankNode(b) if guard && b.as_str().starts_with(|c: char| c.is_ascii_digit() || c == '_') => bnode(&format!("_{}", b.as_str())), _ => x.clone() } };
+        let lower_tag = |t: &T3| -> T3 { let mut t = [node_out(&t[0]), t[1].clone(), node_out(&t[2])]; if let SimpleTerm::LiteralLanguage(l, tag) = &t[2] { t[2] = lit_lang(l, &tag.as_str().to_ascii_lowercase()); } t };
         let std_parse: Vec<String> = expected.iter().map(|t| c_t3(&lower_tag(t))).collect();
         let c_obs_parse = |strict: bool, ind: usize, pr: &Result<Vec<T3>, String>| -> String {
-            match pr { Ok(b) if b.iter().map(c_t3).collect::<Vec<_>>() == std_parse => format!("parse_std {} {ind} g", coq_bool(strict)), _ => format!("parse_ok {} {ind} g {}", coq_bool(strict), c_parse(pr)) }
+            match pr { Ok(b) if b.iter().map(c_t3).collect::<Vec<_>>() == std_parse => format!("parse_std {cg} {} {ind} g", coq_bool(strict)), _ => format!("parse_ok {cg} {} {ind} g {}", coq_bool(strict), c_parse(pr)) }
         };
         let mut parts = vec![];
         for ind in [0usize, k1] {
             let (s, pr, rr) = &runs[ind];
             let with_doc = (ind == 0) == (idx % 2 == 0);
-            let obs = match s { Ser::Doc(d) => if with_doc { format!("(ObsDoc {})", coq_str(d)) } else { "ObsSomeDoc".into() }, Ser::Err(e) if e.contains("named or blank subject") => "ObsErrSubj".into(), Ser::Err(e) if e.contains("named, blank or literal object") => "ObsErrObj".into(), _ => "ObsOther".into() };
-            parts.push(format!("ser_ok {ind} g {obs}"));
+            let obs = match s { Ser::Doc(d) => if with_doc { format!("(ObsDoc {})", coq_str(d)) } else { "ObsSomeDoc".into() }, Ser::Err(e) if e.contains("named or blank subject") => "ObsErrSubj".into(), Ser::Err(e) if e.contains("named, blank or literal object") => "ObsErrObj".into(), Ser::Err(e) if e.contains("RDF/XML can not express") => "ObsErrInput".into(), _ => "ObsOther".into() };
+            parts.push(format!("ser_ok {cg} {ind} g {obs}"));
             if let (Some(pr), Some(rr)) = (pr, rr) {
                 if rio_modelled { parts.push(c_obs_parse(false, ind, pr)); }
                 parts.push(c_obs_parse(true, ind, rr));
